@@ -353,6 +353,7 @@ func evalClassDeclareStmt(vm *r.VM, node *syntax.ClassDeclareStmt) error {
 	if err != nil {
 		return err
 	}
+	classRef.SetModule(module)
 
 	// add symbol to current scope first
 	if err := vm.DeclareConstElement(className, classRef); err != nil {
